@@ -255,6 +255,8 @@ class BaseEvent(BaseModel, Generic[T_EventResultType]):
 
     # Completion signal
     _event_completed_signal: asyncio.Event | None = PrivateAttr(default=None)
+    # Number of buses that have accepted this event but not finished processing it yet
+    _event_pending_bus_count: int = PrivateAttr(default=0)
 
     def __hash__(self) -> int:
         """Make events hashable using their unique event_id"""
@@ -707,6 +709,10 @@ class BaseEvent(BaseModel, Generic[T_EventResultType]):
     def event_mark_complete_if_all_handlers_completed(self) -> None:
         """Check if all handlers are done and signal completion"""
         if self.event_completed_signal and not self.event_completed_signal.is_set():
+            # Not complete while a bus that accepted it (e.g. one it was forwarded to) still has to process it
+            if self._event_pending_bus_count > 0:
+                return
+
             # If there are no results at all, the event is complete
             if not self.event_results:
                 if hasattr(self, 'event_processed_at'):
@@ -747,7 +753,7 @@ class BaseEvent(BaseModel, Generic[T_EventResultType]):
         _visited.add(self.event_id)
 
         for child_event in self.event_children:
-            if child_event.event_status != 'completed':
+            if child_event.event_status != 'completed' or child_event._event_pending_bus_count > 0:
                 logger.debug(f'Event {self} has incomplete child {child_event}')
                 return False
             # Recursively check child's children
